@@ -46,6 +46,20 @@ theorem compile_map_inverse (input : GoStr)
   let ⟨hS, hT⟩ := check_sound _ h
   ⟨roundtrip_src _ hT l c p, roundtrip_tgt _ hS l c p⟩
 
+/-- **No two template positions share a generated position** (and conversely) — a consequence of the
+round trips: on logs with disjoint runs both translations are injective on the positions they map. -/
+theorem toTgt_injective (log : List Frag) (hT : log.Pairwise DisjT) (l c l' c' : Int) (p : Int × Int)
+    (h : toTgt log l c = some p) (h' : toTgt log l' c' = some p) : (l, c) = (l', c') := by
+  have a := roundtrip_src log hT l c p h
+  have b := roundtrip_src log hT l' c' p h'
+  rw [a] at b; exact Option.some.inj b
+
+theorem toSrc_injective (log : List Frag) (hS : log.Pairwise DisjS) (l c l' c' : Int) (p : Int × Int)
+    (h : toSrc log l c = some p) (h' : toSrc log l' c' = some p) : (l, c) = (l', c') := by
+  have a := roundtrip_tgt log hS l c p h
+  have b := roundtrip_tgt log hS l' c' p h'
+  rw [a] at b; exact Option.some.inj b
+
 /-- non-vacuity: two disjoint runs satisfy the hypotheses and a position translates both ways -/
 example : let log : List Frag := [⟨3, 4, 10, 7, 5⟩, ⟨0, 8, 3, 8, 4⟩]
     allDisj disjS log = true ∧ allDisj disjT log = true ∧ toTgt log 3 6 = some (10, 9) ∧ toSrc log 10 9 = some (3, 6) := by
